@@ -63,31 +63,59 @@ class _Ident:
 
 @st.composite
 def case_journal(draw: Any) -> dict[str, Any]:
-    simple = st.one_of(op(), op(), st.sampled_from([["create_trial", 0], ["study_attr", 0, "user", "a", 1], ["create_study", "s1", ["MINIMIZE"]]]))
+    big = st.sampled_from([300, 5000, 9000]).map(lambda n: ["study_attr", 0, "user", "big", "y" * n])
+    simple = st.one_of(op(), op(), big, st.sampled_from([["create_trial", 0], ["study_attr", 0, "user", "a", 1], ["create_study", "s1", ["MINIMIZE"]]]))
+    # the victim may also be the very first writer of a fresh journal file
+    fresh = draw(st.integers(0, 4)) == 0
+    pre = [] if fresh else [["create_study", "s0", ["MINIMIZE"]], ["create_trial", 0]] + draw(st.lists(op(), max_size=5))
+    victim = draw(st.lists(simple, min_size=1, max_size=4))
+    if fresh:
+        victim = [["create_study", "s0", ["MINIMIZE"]]] + victim[:3]
     return {
         "lock": draw(st.sampled_from(["symlink", "open"])),
-        "pre": [["create_study", "s0", ["MINIMIZE"]], ["create_trial", 0]] + draw(st.lists(op(), max_size=5)),
-        "victim": draw(st.lists(simple, min_size=1, max_size=4)),
+        "pre": pre,
+        "victim": victim,
         "cont": draw(st.lists(st.tuples(st.integers(0, 1), simple).map(list), min_size=2, max_size=6)),
         "chunks": draw(st.one_of(st.just([]), st.lists(st.sampled_from([1, 3, 16, 64]), min_size=1, max_size=2))),
     }
 
 
+class _Actor:
+    """A persistent thread per simulated process (its name is the process identity)."""
+
+    def __init__(self, name: str) -> None:
+        import queue
+
+        self.q: Any = queue.Queue()
+        self.r: Any = queue.Queue()
+        self.t = threading.Thread(target=self._loop, name=name, daemon=True)
+        self.t.start()
+
+    def _loop(self) -> None:
+        while True:
+            fn = self.q.get()
+            if fn is None:
+                return
+            try:
+                self.r.put(("ok", fn()))
+            except WorkerDied:
+                self.r.put(("died", None))
+            except BaseException as e:  # noqa: BLE001
+                self.r.put(("exc", e))
+
+    def call(self, fn: Any) -> tuple[str, Any]:
+        self.q.put(fn)
+        return self.r.get()
+
+
+_actors: dict[str, _Actor] = {}
+
+
 def as_worker(name: str, fn: Any) -> tuple[str, Any]:
-    box: list[Any] = []
-
-    def body() -> None:
-        try:
-            box.append(("ok", fn()))
-        except WorkerDied:
-            box.append(("died", None))
-        except BaseException as e:  # noqa: BLE001
-            box.append(("exc", e))
-
-    t = threading.Thread(target=body, name=name)
-    t.start()
-    t.join()
-    return box[0]
+    a = _actors.get(name)
+    if a is None:
+        a = _actors[name] = _Actor(name)
+    return a.call(fn)
 
 
 def journal_once(case: dict[str, Any], crash: tuple[int, Any] | None, path: str, ctx: Ctx | None) -> dict[str, Any]:
@@ -102,7 +130,7 @@ def journal_once(case: dict[str, Any], crash: tuple[int, Any] | None, path: str,
             os.unlink(os.path.join(os.path.dirname(path), p))
     clock = Scheduler()
     fctx = faultfs.Ctx(clock)
-    fctx.max_chunks = 400
+    fctx.max_chunks = 16
     fctx.chunks["victim"] = list(case["chunks"])
     faultfs.install(fctx)
     try:
@@ -261,7 +289,13 @@ def run_journal(case: dict[str, Any], ctx: Ctx) -> None:
         tag, d = info["trace"][k]
         if tag == "write":
             pos, size, total = d
-            cuts = range(1, size) if size <= 200 else sorted({1, size // 2, size - 1})
+            # every byte offset of short records; for long ones the ends, the middle and the offsets
+            # around file-system block sizes (absolute positions inside the record)
+            if total <= 200:
+                cuts: Any = range(1, size)
+            else:
+                marks = {1, total // 2, total - 1} | {c for c in (4095, 4096, 4097, 8191, 8192, 8193) if c < total}
+                cuts = sorted(m_ - pos for m_ in marks if pos < m_ < pos + size)
             for c in cuts:
                 one((k, c))
     ctx.event("scenarios")
